@@ -35,6 +35,8 @@ func (e *Expr) MarshalJSON() ([]byte, error) {
 		m["s"] = e.S
 	case "var":
 		m["v"] = e.S
+	case "special":
+		m["c"] = e.S
 	case "neg", "not":
 		m["a"] = e.A
 	case "bin":
@@ -66,6 +68,7 @@ func (e *Expr) UnmarshalJSON(b []byte) error {
 		L    *Expr   `json:"l"`
 		R    *Expr   `json:"r"`
 		Args []*Expr `json:"args"`
+		C    string  `json:"c"`
 	}
 	if err := json.Unmarshal(b, &m); err != nil {
 		return err
@@ -73,6 +76,9 @@ func (e *Expr) UnmarshalJSON(b []byte) error {
 	*e = Expr{K: m.K, N: m.N, D: m.D, B: m.B, S: m.S, Op: m.Op, A: m.A, L: m.L, R: m.R, Args: m.Args}
 	if m.K == "var" {
 		e.S = m.V
+	}
+	if m.K == "special" {
+		e.S = m.C
 	}
 	if m.K == "call" {
 		e.S = m.Fn
@@ -91,6 +97,9 @@ func eCall(fn string, args ...*Expr) *Expr {
 	return &Expr{K: "call", S: fn, Args: args}
 }
 func eNone() *Expr { return &Expr{K: "none"} }
+
+// eSpecial: a number outside the window (inf neginf nan huge neghuge big negbig), see spec/YarnExpr.tla
+func eSpecial(c string) *Expr { return &Expr{K: "special", S: c} }
 func eNull() *Expr { return &Expr{K: "null"} }
 
 // Part is one element of a line's text: a literal or an inline expression.
@@ -251,6 +260,7 @@ func defaultFuncs() map[string]string {
 		"visited": "visited", "visited_count": "visited_count",
 		"string": "string", "number": "number", "bool": "bool",
 		"p1": "id", "p2": "id", "boom": "boom", "noret": "noret",
+		"dice": "dice", "random_range": "random_range",
 	}
 }
 
